@@ -4,64 +4,62 @@ import Driver.Proto
 namespace Ops.TensorsCore
 open ModelF ModelF.Tensors Proto
 
-/-- force the 81 entries once -/
-def memo4 (T : Ten4) : Ten4 :=
-  let a : Array Float := ((List.finRange 3).flatMap fun p => (List.finRange 3).flatMap fun q =>
-    (List.finRange 3).flatMap fun r => (List.finRange 3).map fun s => T p q r s).toArray
-  fun p q r s => a.getD (27 * p.val + 9 * q.val + 3 * r.val + s.val) 0
+/-! Inputs are stored as arrays (data) and read through the model's `ofA*` accessors: a partial
+application `ofA6 a` captures the array, nothing is recomputed per entry. -/
+def arr (l : List Float) : Array Float := l.toArray
 
-def memo6 (M : Mat6) : Mat6 :=
-  let a : Array Float := (mat6ToList M).toArray
-  fun i j => a.getD (6 * i.val + j.val) 0
-
-def memo21 (v : Vec21) : Vec21 :=
-  let a : Array Float := (vec21ToList v).toArray
-  fun k => a.getD k.val 0
-
-def sqOfList (n : Nat) (l : List Float) : Fin n → Fin n → Float :=
-  let a := l.toArray
+def sqOfArr (n : Nat) (a : Array Float) : Fin n → Fin n → Float :=
   fun i j => a.getD (n * i.val + j.val) 0
 def sqToList (n : Nat) (M : Fin n → Fin n → Float) : List Float :=
   (List.finRange n).flatMap fun i => (List.finRange n).map fun j => M i j
 
-def vec3OfList (l : List Float) : Vec3 := fun i => l.getD i.val 0
+def vec3OfArr (a : Array Float) : Vec3 := fun i => a.getD i.val 0
 
-def m6 (l : List Float) : Mat6 := memo6 (mat6OfList l)
-def t4 (l : List Float) : Ten4 := memo4 (ten4OfList l)
-def v21 (l : List Float) : Vec21 := memo21 (vec21OfList l)
+def m6 (l : List Float) : Mat6 := ofA6 (arr l)
+def t4 (l : List Float) : Ten4 := ofA4 (arr l)
+def v21 (l : List Float) : Vec21 := ofA21 (arr l)
+def m3 (l : List Float) : Mat3 := ofA3 (arr l)
 
 def handle (toks : List String) : Option String :=
   match toks with
   | ["t_vidx", p, q] =>
     let p := p.toNat!; let q := q.toNat!
     some (toString (vidxNat p q) ++ " " ++ toString (vidx (Fin.ofNat 3 p) (Fin.ofNat 3 q)).val)
-  | "t_v2t" :: rest => some (fmtFs (ten4ToList (voigtToTensor (m6 (rest.map parseF)))))
-  | "t_t2v" :: rest => some (fmtFs (mat6ToList (tensorToVoigt (t4 (rest.map parseF)))))
-  | "t_m2v" :: rest => some (fmtFs (vec21ToList (matrixToVector (m6 (rest.map parseF)))))
-  | "t_v2m" :: rest => some (fmtFs (mat6ToList (vectorToMatrix (v21 (rest.map parseF)))))
+  | "t_v2t" :: rest => let a := arr (rest.map parseF); some (fmtFs (ten4ToList (voigtToTensor (ofA6 a))))
+  | "t_t2v" :: rest => let a := arr (rest.map parseF); some (fmtFs (mat6ToList (tensorToVoigt (ofA4 a))))
+  | "t_m2v" :: rest => let a := arr (rest.map parseF); some (fmtFs (vec21ToList (matrixToVector (ofA6 a))))
+  | "t_v2m" :: rest => let a := arr (rest.map parseF); some (fmtFs (mat6ToList (vectorToMatrix (ofA21 a))))
   | "t_uts" :: n :: rest =>
     let n := n.toNat!
-    some (fmtFs (sqToList n (upperTriToSymmetric (sqOfList n (rest.map parseF)))))
+    let a := arr (rest.map parseF)
+    some (fmtFs (sqToList n (upperTriToSymmetric (sqOfArr n a))))
   | "t_rot" :: rest =>
     let (t, rest) := takeF 81 rest
     let (q, _) := takeF 9 rest
-    some (fmtFs (ten4ToList (rotate (t4 t) (Mat3.memo (mat3OfList q)))))
+    let ta := arr t
+    let qa := arr q
+    some (fmtFs (ten4ToList (rotate (ofA4 ta) (ofA3 qa))))
   | "t_dec" :: rest =>
-    let (a, b) := voigtDecompose (m6 (rest.map parseF))
+    let ma := arr (rest.map parseF)
+    let (a, b) := voigtDecompose (ofA6 ma)
     some (fmtFs (mat3ToList a ++ mat3ToList b))
-  | "t_mono" :: rest => some (fmtFs (vec21ToList (monoProject (v21 (rest.map parseF)))))
-  | "t_ortho" :: rest => some (fmtFs (vec21ToList (orthoProject (v21 (rest.map parseF)))))
-  | "t_tetr" :: rest => some (fmtFs (vec21ToList (tetrProject (v21 (rest.map parseF)))))
-  | "t_hex" :: rest => some (fmtFs (vec21ToList (hexProject (v21 (rest.map parseF)))))
+  | "t_mono" :: rest => let a := arr (rest.map parseF); some (fmtFs (vec21ToList (monoProject (ofA21 a))))
+  | "t_ortho" :: rest => let a := arr (rest.map parseF); some (fmtFs (vec21ToList (orthoProject (ofA21 a))))
+  | "t_tetr" :: rest => let a := arr (rest.map parseF); some (fmtFs (vec21ToList (tetrProject (ofA21 a))))
+  | "t_hex" :: rest => let a := arr (rest.map parseF); some (fmtFs (vec21ToList (hexProject (ofA21 a))))
   | "t_polar" :: left :: rest =>
     let (u, rest) := takeF 9 rest
     let (s, rest) := takeF 3 rest
     let (vh, _) := takeF 9 rest
-    let d : SVD := ⟨Mat3.memo (mat3OfList u), vec3OfList s, Mat3.memo (mat3OfList vh)⟩
+    let ua := arr u
+    let sa := arr s
+    let va := arr vh
+    let d : SVD := ⟨ofA3 ua, vec3OfArr sa, ofA3 va⟩
     let (a, b) := if left == "1" then polarLeft d else polarRight d
     some (fmtFs (mat3ToList a ++ mat3ToList b))
   | "t_inv" :: rest =>
-    let (a, b, c) := invariants (Mat3.memo (mat3OfList (rest.map parseF)))
+    let ma := arr (rest.map parseF)
+    let (a, b, c) := invariants (ofA3 ma)
     some (fmtFs [a, b, c])
   | _ => none
 
